@@ -100,6 +100,25 @@ def handle (op : String) (args : List String) : Option String :=
                renderNat (Model.Merkle.getWeight nb),
                ",".intercalate (nb.vtx.map (fun t => renderNat (Model.Merkle.calcWeight t)))])
       | none => badArgs
+  -- `c15.blockobs` followed by what is observed on the transaction OBJECTS the block was built from
+  -- (GetTxid ; GetHash ; calc_weight ; both serialize() lengths of each), all on the current field values
+  | "c15.histobs", [blk] => some <| match parseBlock? blk with
+      | some b =>
+          let len (r : Res Bytes) : String := Res.render (r.map (fun x => toString x.length))
+          let blockPart :=
+            (match Model.Merkle.blockCtor b.hdr b.vtx with
+             | .error e => "err:" ++ e.family
+             | .ok nb =>
+               ";".intercalate ["ok:" ++ toHex nb.hdr.hashMerkleRoot,
+                 renderBytes (Model.Merkle.calcMerkleRoot nb.vtx),
+                 renderBytes (Model.Merkle.calcWitnessMerkleRoot nb.vtx),
+                 renderNat (Model.Merkle.getWeight nb),
+                 ",".intercalate (nb.vtx.map (fun t => renderNat (Model.Merkle.calcWeight t)))])
+          let txPart := "|".intercalate (b.vtx.map fun t =>
+            ";".intercalate [renderBytes (Model.Merkle.getTxid t), renderBytes (Model.Merkle.getHash t),
+              renderNat (Model.Merkle.calcWeight t), len (Model.Wire.serTx t false), len (Model.Wire.serTx t true)])
+          blockPart ++ "@" ++ txPart
+      | none => badArgs
   | _, _ => none
 
 end Driver.C15
